@@ -488,8 +488,71 @@ def normalise_tree(tree):
                     del body[i]
                     continue
             i += 1
+    def collapse_fresh_alias(fn):
+        """`t = <fresh empty container>; v = t` with t used nowhere else is `v = <fresh empty container>`."""
+        counts = {}
+        for x in ast.walk(fn):
+            if isinstance(x, ast.Name):
+                counts[x.id] = counts.get(x.id, 0) + 1
+
+        def is_empty(e):
+            return (isinstance(e, (ast.List, ast.Set)) and not e.elts) or (isinstance(e, ast.Dict) and not e.keys) or (
+                isinstance(e, ast.Call) and isinstance(e.func, ast.Name) and e.func.id in ('list', 'set', 'dict') and not e.args and not e.keywords)
+
+        def go(body):
+            i = 0
+            while i + 1 < len(body):
+                a, b = body[i], body[i + 1]
+                if isinstance(a, ast.Assign) and len(a.targets) == 1 and isinstance(a.targets[0], ast.Name) and is_empty(a.value) \
+                        and isinstance(b, ast.Assign) and len(b.targets) == 1 and isinstance(b.targets[0], ast.Name) and isinstance(b.value, ast.Name) \
+                        and b.value.id == a.targets[0].id and counts.get(a.targets[0].id) == 2 and b.targets[0].id != a.targets[0].id:
+                    b.value = a.value
+                    del body[i]
+                    continue
+                i += 1
+            for st in body:
+                for field in ('body', 'orelse', 'finalbody'):
+                    sub = getattr(st, field, None)
+                    if isinstance(sub, list) and sub and isinstance(sub[0], ast.stmt) and not isinstance(st, (ast.FunctionDef, ast.AsyncFunctionDef, ast.ClassDef)):
+                        go(sub)
+                for h in getattr(st, 'handlers', []) or []:
+                    go(h.body)
+        go(fn.body)
+    def join_same_returns(body):
+        """`if c: A; return v` followed by `REST; return v` (the same plain name / constant, not re-bound in REST, no other return in
+        REST) is `if c: A else: REST` followed by one `return v`."""
+        changed = True
+        while changed:
+            changed = False
+            plain = lambda v_: isinstance(v_, (ast.Name, ast.Constant)) or (
+                isinstance(v_, ast.Tuple) and all(isinstance(x_, (ast.Name, ast.Constant)) for x_ in v_.elts))
+            if len(body) < 3 or not (isinstance(body[-1], ast.Return) and body[-1].value is not None and plain(body[-1].value)):
+                return
+            final = ast.dump(body[-1].value)
+            for i in range(len(body) - 2, -1, -1):
+                st = body[i]
+                if isinstance(st, ast.If) and not st.orelse and st.body and isinstance(st.body[-1], ast.Return) and st.body[-1].value is not None \
+                        and ast.dump(st.body[-1].value) == final:
+                    rest = body[i + 1:-1]
+                    if not rest:
+                        break
+                    vs = {x.id for x in ast.walk(body[-1].value) if isinstance(x, ast.Name)}
+                    if any(isinstance(x, ast.Name) and x.id in vs and isinstance(x.ctx, (ast.Store, ast.Del)) for r_ in rest for x in ast.walk(r_)):
+                        break
+                    if any(isinstance(x, ast.Return) for r_ in rest for x in ast.walk(r_)):
+                        break
+                    arm = st.body[:-1]
+                    if arm:
+                        new_if = ast.If(test=st.test, body=arm, orelse=rest)
+                    else:
+                        new_if = ast.If(test=ast.UnaryOp(op=ast.Not(), operand=st.test), body=rest, orelse=[])
+                    body[i:-1] = [ast.fix_missing_locations(ast.copy_location(new_if, st))]
+                    changed = True
+                    break
     for n in ast.walk(tree):
         if isinstance(n, (ast.FunctionDef, ast.AsyncFunctionDef)):
+            join_same_returns(n.body)
+            collapse_fresh_alias(n)
             push_empty(n.body)
             n.body = fold_loops(n.body)
             n.body = fold_defaults(n.body)
